@@ -70,7 +70,7 @@ CHECKS = {
              'columns and indexes addressed by object, twin, position and bad position) are explored breadth-first to the depth bound; after every operation the outcome class and every observer '
              '(iteration, positional and name lookup for current and stale names, kind lists, back-pointers of every universe object) must agree with the model, and a rejected operation must leave the '
              'implementation state hash unchanged.',
-        note='The reference model (verif/props/c09.py Model/TModel) is the statement turned into lists and a name set. Deleting via an equal twin may be rejected or remove the equal object (model follows the implementation); sticky notes compare by identity and adding the very same note object twice is not explored. '
+        note='The reference model (verif/props/c09.py Model/TModel) is the statement turned into lists and a name set. Deleting via an equal twin may be rejected or remove the equal object (model follows the implementation); sticky notes compare by identity, and adding the very same note object twice may be refused or list it twice (the invariants decide afterwards). '
              'Renames producing two contained tables with one name are outside the space.',
         design='DESIGN.md §3 C09'),
     'C10': dict(
